@@ -217,27 +217,45 @@ func (inv *Invoice) Invert() error {
 	// Explicit bases and quantities are inverted alongside the amounts, as the
 	// amounts are calculated again from them.
 	for _, row := range inv.Lines {
+		if row == nil {
+			continue
+		}
 		row.Quantity = row.Quantity.Invert()
 		for _, d := range row.Discounts {
+			if d == nil {
+				continue
+			}
 			d.Base = invertAmount(d.Base)
 			d.Amount = d.Amount.Invert()
 		}
 		for _, c := range row.Charges {
+			if c == nil {
+				continue
+			}
 			c.Base = invertAmount(c.Base)
 			c.Quantity = invertAmount(c.Quantity)
 			c.Amount = c.Amount.Invert()
 		}
 	}
 	for _, row := range inv.Charges {
+		if row == nil {
+			continue
+		}
 		row.Base = invertAmount(row.Base)
 		row.Amount = row.Amount.Invert()
 	}
 	for _, row := range inv.Discounts {
+		if row == nil {
+			continue
+		}
 		row.Base = invertAmount(row.Base)
 		row.Amount = row.Amount.Invert()
 	}
 	if inv.Payment != nil {
 		for _, row := range inv.Payment.Advances {
+			if row == nil {
+				continue
+			}
 			row.Amount = row.Amount.Invert()
 		}
 	}
